@@ -1051,3 +1051,5 @@ def check(run, prog):
     rule_brace_tail(run, prog)               # R-3.9
     from .c03_comment_layout import rule_literal_layout
     rule_literal_layout(run, prog, "R-3.10")
+    from .snippet_rules import rule_lines_counted_everywhere
+    rule_lines_counted_everywhere(run, prog)  # R-3.11
